@@ -36,7 +36,12 @@ let handle = function
     let p = unhex path and c = content_of (unhex_opt content) in
     if not (domb c p) then "ok" else
     (match outcome_of o1, outcome_of o2 with
-     | Some a, Some b -> if spec_C18_ok c p a b (st_of_word st) then "ok" else "bad:C18"
+     | Some a, Some b ->
+       if spec_C18_ok c p a b (st_of_word st) then "ok"
+       (* which clause of spec_C18_ok failed: the outcome of enable, the second enable, or status afterwards *)
+       else if not (outcome_eqb a (enable_spec c p)) then "bad:C18-enable"
+       else if not (outcome_eqb b Unchanged) then "bad:C18-idempotent"
+       else "bad:C18-status-after"
      | _ -> "bad:outcome")
   (* specD path content o -> ok | bad      (disable) *)
   | ["specD"; path; content; o] ->
